@@ -2,11 +2,12 @@ CONSTANTS
   KPool <- KPoolQ
   FPool <- FPoolQ
   BadPool <- BadPoolQ
-  MaxRes = 2
+  MaxRes = 1
   Depth = 2
 SPECIFICATION Spec
 CONSTRAINT Bound
 PROPERTY FreshResult
 PROPERTY ResultOwned
 PROPERTY AnswerStable
+PROPERTY OnlyEditsChangeK
 CHECK_DEADLOCK FALSE
